@@ -110,16 +110,3 @@ void h_wake_sleepers(void) {
   VCANARY("wake_sleepers can return");
 }
 
-/* ---------------- event layer used by C08: all int fd ---------------- */
-static fd_wait_info_t WTABLE[4];
-void h_fd_closed(void) {
-  int fd = verif_int();
-  event_fd = verif_bool() ? 3 : -1; max_fd = (int)verif_pick(4) + 1; wait_info = WTABLE;
-  G.locks = G.unlocks = G.lock_held = 0;
-  if (fd >= 0 && fd < max_fd) { WTABLE[fd].waiters = 0; WTABLE[fd].events = verif_int(); WTABLE[fd].added = verif_bool(); }
-  fiber_fd_closed(fd);   /* memory safety for every int: CBMC bounds/pointer checks on wait_info[fd] */
-  if (fd >= 0 && fd < max_fd && event_fd >= 0) VASSERT(WTABLE[fd].events == 0 && WTABLE[fd].added == 0 && G.locks == 1 && G.unlocks == 1, "C08.close: interest cleared under the descriptor's spinlock");
-  else VASSERT(G.locks == 0, "C08.invalid: fiber_fd_closed touches nothing for a descriptor outside the table");
-  VCANARY("fd_closed can return");
-}
-int epoll_ctl(int a, int b, int c, struct epoll_event* e) { return verif_bool() ? 0 : -1; }
